@@ -442,7 +442,24 @@ fn layout_class(case: &Case, text: &str, stderr: &str) -> Option<String> {
             let n = failing_cpp_class(stderr)?;
             let node = g.nodes.get(n)?;
             let poly = g.polymorphic();
-            let non_pod_base = node.bases.iter().any(|b| g.nodes[*b].dtor || poly[*b] || !g.nodes[*b].bases.is_empty());
+            let _ = node;
+            // the class itself, or anything it holds by value (members, instantiations, bases), derives
+            // from a non-POD base whose tail padding C++ reuses
+            let has_non_pod_base = |k: usize| g.nodes[k].bases.iter().any(|b| g.nodes[*b].dtor || poly[*b] || !g.nodes[*b].bases.is_empty());
+            let mut seen = std::collections::BTreeSet::new();
+            let mut work = vec![n];
+            let mut non_pod_base = false;
+            while let Some(k) = work.pop() {
+                if !seen.insert(k) {
+                    continue;
+                }
+                if has_non_pod_base(k) {
+                    non_pod_base = true;
+                    break;
+                }
+                let (by_value, _) = g.deps(k);
+                work.extend(by_value);
+            }
             let any_virtual_base = g.nodes.iter().any(|n| n.virtual_bases && !n.bases.is_empty());
             Some(if any_virtual_base {
                 "layout-assertion/cpp-virtual-base".into()
